@@ -155,7 +155,10 @@ def check_detonation_flux(v, cls, eos, Tn, vw, vp, vm, Tp, Tm, rtol, atol):
         v.fail("flux", cls, f"junction relation has no v- in (0,1) around the returned T-={Tm:.6g} (vw={vw:.6g})")
         return
     # near the Jouguet point g has a double root: its maximum inside the window also certifies a root
-    ok = glo * ghi <= 0 or (max(glo, ghi, gm) >= 0 >= min(glo, ghi, gm))
+    # (exactly at the Jouguet velocity the double root makes g <= 0 everywhere up to rounding: a residual of
+    # a few ulp of the flux is a root)
+    ok = (glo * ghi <= 0 or (max(glo, ghi, gm) >= 0 >= min(glo, ghi, gm))
+          or min(abs(glo), abs(gm), abs(ghi)) <= 64 * 2.0 ** -52)
     if not ok:
         v.fail("flux", cls,
                f"energy flux does not balance for any T- within K(atol+rtol T) of the returned one: "
@@ -249,7 +252,13 @@ def _check_case(case) -> Verdict:
         v.label("vw==vMin")
     if at_vj:
         v.label("vw==vJ")
-    cls = (f"{base_cls}/{branch}/{vbucket}" + ("/at-vMin" if at_vmin else "") + ("/at-vJ" if at_vj else "")
+    # (the 2x2 solve's acceptance test is in units of v^2: besides slow walls, strong transitions just
+    #  above vMin have v+ << vw)
+    slow_vp = vbucket == "vw>=0.1" and branch != "detonation" and vp < 0.03
+    if slow_vp:
+        v.label("slow-v+")
+    cls = (f"{base_cls}/{branch}/{vbucket}" + ("/slow-v+" if slow_vp else "")
+           + ("/at-vMin" if at_vmin else "") + ("/at-vJ" if at_vj else "")
            + ("/fallback" if took_fallback else "")
            + ("/unconverged-flag" if (solver == "general" and branch != "detonation" and not hyd.success) else ""))
     v.info["matching"] = [vp, vm, Tp, Tm]
